@@ -95,4 +95,10 @@ Annotate(toks) ==
                         r1 == Apply(prev, New)
                     IN prev # "numéro" /\ r1.st # "ok" /\ Apply(next, r1.ds).st # "ok"
   IN {tw[j] : j \in {x \in 1..Len(tw) : cand(x)}}
+
+Vocabulary == DOMAIN Small \cup DOMAIN SmallOrd \cup DOMAIN Free79 \cup DOMAIN Teens \cup DOMAIN Tens \cup
+              {"zéro", "premier", "première", "dix", "dixième", "vingt", "vingtième", "cent", "centième", "mille", "mil", "millième", "million",
+               "millionième", "milliard", "milliardième", "et", "virgule", "cents", "vingts", "millions", "milliards", "deuxièmes", "premiers",
+               "premières", "vingt-cinq", "quatre-vingt", "quatre-vingts", "soixante-dix", "quatre-vingt-dix-sept", "vingt-et-un", "vingt-et-unième",
+               "trente-deuxième", "dix-sept", "soixante-et-onze", "quatre-vingt-un", "cent-un", "deux-cents", "mille-neuf-cent", "chats", "le"}
 =============================================================================
